@@ -175,10 +175,30 @@ func init() {
 		"reflect.TypeOf":               ext۰reflect۰TypeOf,
 		"reflect.ValueOf":              ext۰reflect۰ValueOf,
 		"reflect.Zero":                 ext۰reflect۰Zero,
-		"math.Float32bits":             func(fr *frame, a []value) value { return math.Float32bits(a[0].(float32)) },
-		"math.Float32frombits":         func(fr *frame, a []value) value { return math.Float32frombits(a[0].(uint32)) },
-		"math.Float64bits":             func(fr *frame, a []value) value { return math.Float64bits(a[0].(float64)) },
-		"math.Float64frombits":         func(fr *frame, a []value) value { return math.Float64frombits(a[0].(uint64)) },
+		"math.Float32bits": func(fr *frame, a []value) value {
+			if f, ok := a[0].(symFloat); ok {
+				return f.bits
+			}
+			return math.Float32bits(a[0].(float32))
+		},
+		"math.Float32frombits": func(fr *frame, a []value) value {
+			if s, ok := a[0].(sym); ok {
+				return symFloat{s}
+			}
+			return math.Float32frombits(a[0].(uint32))
+		},
+		"math.Float64bits": func(fr *frame, a []value) value {
+			if f, ok := a[0].(symFloat); ok {
+				return f.bits
+			}
+			return math.Float64bits(a[0].(float64))
+		},
+		"math.Float64frombits": func(fr *frame, a []value) value {
+			if s, ok := a[0].(sym); ok {
+				return symFloat{s}
+			}
+			return math.Float64frombits(a[0].(uint64))
+		},
 		"math.Abs":                     func(fr *frame, a []value) value { return math.Abs(a[0].(float64)) },
 		"math.Inf":                     func(fr *frame, a []value) value { return math.Inf(a[0].(int)) },
 		"math.IsNaN":                   func(fr *frame, a []value) value { return math.IsNaN(a[0].(float64)) },
